@@ -188,6 +188,21 @@ def add_goal(ex, name, atom, info=None):
     ex.goal(name, atom, info=info)
 
 
+def B(ex, zexpr):
+    """a boolean built with z3 operators over unwrapped values: the z3 term in a symbolic run, its truth value in a replay"""
+    if ex.symbolic or not sym.isz(zexpr):
+        return zexpr
+    return bool(z3.is_true(z3.simplify(zexpr)))
+
+
+def RZ(x):
+    """unwrapped number -> z3 term (floats of a replay are rounded to 9 decimals / 9 significant digits so that identities that hold
+    up to rounding are not refuted by the exact rational comparison)"""
+    if sym.isz(x):
+        return x
+    return sym.rat(float('%.9g' % round(float(x), 9)))
+
+
 def add_eq(ex, name, a, b, info=None, scale=1.0):
     """a == b as the two goals a <= b and b <= a (measured: a disequality over sqrt/division terms that costs z3 14 s is
     decided in 0.4 s + 0.2 s when split)"""
@@ -367,10 +382,10 @@ def make_dogleg_gram():
         oo = ip(out, out)
         tt = tr * tr
         add_goal(ex, 'inside_region', Le(U(oo), U(tt)))
-        za, zb = px._z(a), px._z(b)
+        za, zb, zcc, znn, ztt = RZ(U(a)), RZ(U(b)), RZ(U(cc)), RZ(U(nn)), RZ(U(tt))
         on_ray = z3.And(zb == 0, za > 0, za <= 1)
         on_leg = z3.And(za + zb == 1, zb >= 0, zb <= 1)
-        add_goal(ex, 'on_the_dogleg_path', Holds(z3.Or(on_ray, on_leg)), info='result = a*cp + b*newtonP must be s*cp, 0<s<=1, or cp + tau (newtonP - cp), 0<=tau<=1')
+        add_goal(ex, 'on_the_dogleg_path', Holds(B(ex, z3.Or(on_ray, on_leg))), info='result = a*cp + b*newtonP must be s*cp, 0<s<=1, or cp + tau (newtonP - cp), 0<=tau<=1')
         # the step is on the boundary unless it is (syntactically) the unclipped Cauchy point or the unclipped quasi-Newton point
         plain = lambda x, v: (not is_sym(x)) and float(x) == v
         unclipped = (plain(a, 1.0) and plain(b, 0.0)) or (plain(a, 0.0) and plain(b, 1.0))
@@ -380,8 +395,8 @@ def make_dogleg_gram():
         else:
             add_eq(ex, 'on_boundary_when_clipped', U(oo), U(tt))
         # which point is returned: Cauchy point clipped iff it is outside; never the quasi-Newton point if that is outside
-        add_goal(ex, 'exit_kind_consistent', Holds(z3.And(z3.Implies(U(cc) >= U(tt), zb == 0), z3.Implies(z3.And(za == 0, zb == 1), U(nn) <= U(tt)),
-                                                        z3.Implies(z3.And(U(cc) < U(tt), U(cc) <= U(nn), U(nn) <= U(tt)), z3.And(za == 0, zb == 1)))))
+        add_goal(ex, 'exit_kind_consistent', Holds(B(ex, z3.And(z3.Implies(zcc >= ztt, zb == 0), z3.Implies(z3.And(za == 0, zb == 1), znn <= ztt),
+                                                              z3.Implies(z3.And(zcc < ztt, zcc <= znn, znn <= ztt), z3.And(za == 0, zb == 1))))))
     return fn
 
 
@@ -394,9 +409,8 @@ def make_dogleg_component(n, projection_exit):
         mm = lambda v: NP.dot(M, v)
         ip = lambda a, b: NP.dot(a, mm(b))
         cc, nn, tt = ip(cp, cp), ip(nw, nw), tr * tr
-        takes_projection = SymBool(z3.And(U(cc) < U(tt), U(cc) <= U(nn), U(nn) > U(tt)))
         if not projection_exit:
-            ex.assume(~takes_projection)
+            ex.assume(~((cc < tt) & (cc <= nn) & (nn > tt)) if ex.symbolic else not (cc < tt and cc <= nn and nn > tt))
         out = mod.dogleg_step(cp, nw, tr, mm)
         oo = ip(out, out)
         add_goal(ex, 'inside_region', Le(U(oo), U(tt)))
@@ -407,9 +421,9 @@ def make_dogleg_component(n, projection_exit):
             leg = w[0] * d[1] - w[1] * d[0]
             sc = ip(out, cp)          # = s*cc on the ray
             tl = ip(w, d)             # = tau*dd on the leg
-            on_ray = z3.And(U(ray) == 0, U(sc) > 0, U(sc) <= U(cc))
-            on_leg = z3.And(U(leg) == 0, U(tl) >= 0, U(tl) <= U(ip(d, d)))
-            add_goal(ex, 'on_the_dogleg_path', Holds(z3.Or(on_ray, on_leg)))
+            on_ray = z3.And(RZ(U(ray)) == 0, RZ(U(sc)) > 0, RZ(U(sc)) <= RZ(U(cc)))
+            on_leg = z3.And(RZ(U(leg)) == 0, RZ(U(tl)) >= 0, RZ(U(tl)) <= RZ(U(ip(d, d))))
+            add_goal(ex, 'on_the_dogleg_path', Holds(B(ex, z3.Or(on_ray, on_leg))))
     return fn
 
 
@@ -438,13 +452,18 @@ def o2_comp(h):
 
 
 # =========================================================================================== O3 truncated CG
+def F(ex, x):
+    """replay: numpy float64 scalars, so that x/0 follows IEEE (inf/nan) as in the real arrays instead of raising"""
+    return x if ex.symbolic or isinstance(x, (bool, int)) else onp.float64(x)
+
+
 def install_moments(ex):
     """Gram table of the Krylov vectors H^k g: <H^i g, H^j g> = mu_{i+j}"""
     cache = {}
 
     def mu(k):
         if k not in cache:
-            cache[k] = ex.real('mu%d' % k)
+            cache[k] = F(ex, ex.real('mu%d' % k))
         return cache[k]
     ex.gram_entry = lambda i, j: mu(i + j)
     return mu
@@ -471,10 +490,10 @@ def hankel_psd(ex, mu, order):
 
 
 def cg_settings(ex, mod, K, precond_ip, ratio_symbolic=True):
-    cgtol = ex.real('cg_tol')
+    cgtol = F(ex, ex.real('cg_tol'))
     ex.assume(cgtol > 0)
     if ratio_symbolic:
-        ratio = ex.real('cg_inexact_solve_ratio')
+        ratio = F(ex, ex.real('cg_inexact_solve_ratio'))
         ex.assume(ratio >= 0)
     else:
         ratio = 0.0
@@ -514,15 +533,17 @@ def make_cg_moment(K, routine, ratio_symbolic, precond_ip=False):
         mod = load_es() if routine == 'solve_trust_region_minimization' else load_sub()[0]
         g, x = GV({0: 1.0}), GV({})
         hv = lambda v: GV({k + 1: c for k, c in v.c.items()})
-        tr = ex.real('trSize')
+        tr = F(ex, ex.real('trSize'))
         ex.assume(tr > 0)
         settings, cgtol, ratio = cg_settings(ex, mod, K, precond_ip, ratio_symbolic)
         hankel_psd(ex, mu, 2)
+        with onp.errstate(all='ignore'):
+            if routine == 'solve_trust_region_minimization':
+                z, cauchyP, kind, it = mod.solve_trust_region_minimization(x, GV(dict(g.c)), hv, lambda v: v, tr, settings)
+            else:
+                z, kind, it = mod.trust_region_cg(x, GV(dict(g.c)), GV(dict(g.c)), hv(g), hv, lambda v: v, tr, settings)
         if routine == 'solve_trust_region_minimization':
-            z, cauchyP, kind, it = mod.solve_trust_region_minimization(x, GV(dict(g.c)), hv, lambda v: v, tr, settings)
             add_goal(ex, 'cauchy_direction_is_minus_preconditioned_gradient', Holds(it == 0 or (isinstance(cauchyP, GV) and set(cauchyP.c) == {0} and cauchyP.c[0] == -1.0)))
-        else:
-            z, kind, it = mod.trust_region_cg(x, GV(dict(g.c)), GV(dict(g.c)), hv(g), hv, lambda v: v, tr, settings)
         zz, tt = z @ z, tr * tr
         model = g @ z + 0.5 * (z @ hv(z))
         t = ex.real('t_cauchy')      # any step -t g, t >= 0, inside the region (the Cauchy step is the best of them)
@@ -553,15 +574,16 @@ def make_cg_component(n, K, precond_ip, precond_kind, routine='solve_trust_regio
             precond = lambda v: v / Md
             mmul = lambda v: Md * v
         ip = (lambda a, b: NP.dot(a, mmul(b))) if precond_ip else (lambda a, b: NP.dot(a, b))
-        tr = ex.real('trSize')
+        tr = F(ex, ex.real('trSize'))
         ex.assume(tr > 0)
         settings, cgtol, ratio = cg_settings(ex, mod, K, precond_ip, ratio_symbolic)
         x = onp.zeros(n)
-        if routine == 'solve_trust_region_minimization':
-            z, cauchyP, kind, it = mod.solve_trust_region_minimization(x, g.copy(), hv, precond, tr, settings)
-        else:
-            Pg = precond(g)
-            z, kind, it = mod.trust_region_cg(x, g.copy(), Pg, hv(Pg), hv, precond, tr, settings)
+        with onp.errstate(all='ignore'):
+            if routine == 'solve_trust_region_minimization':
+                z, cauchyP, kind, it = mod.solve_trust_region_minimization(x, g.copy(), hv, precond, tr, settings)
+            else:
+                Pg = precond(g)
+                z, kind, it = mod.trust_region_cg(x, g.copy(), Pg, hv(Pg), hv, precond, tr, settings)
         zz, tt = ip(z, z), tr * tr
         model = NP.dot(g, z) + 0.5 * NP.dot(z, hv(z))
         t = ex.real('t_cauchy')
